@@ -225,6 +225,10 @@ def remove_suffix(v, rest):
     return v[:len(v) - len(rest)] if v.endswith(rest) else v
 
 
+def is_prefix_list(a, b):
+    return len(a) <= len(b) and all(x is y for x, y in zip(a, b))
+
+
 def is_fresh(obj):
     return isinstance(obj, (list, dict, set))      # natively only the type can be checked
 
